@@ -45,66 +45,70 @@ def check(ctx, run):
     if not ok:
         run.fail(Finding("C17.R1", rb.qualname, f"stores {[str(s['value']) for s in stores]}", "a buffer is stored without passing through .to(self.device, self.dtype)",
                          file=str(prog.modules[rb.module].path), line=rb.node.lineno))
-    # ---- R2: to()
+    # ---- R2: to(), judged by what it leaves behind in four scenarios (interpreted with the real register_buffer / named_buffers and a model
+    # of torch's _parse_to): a dtype given, a device given, nothing given, and the rejection of a non-floating dtype before any state changes
+    from ..registry import _effective, _tag
     to = prog.functions.get(BASE + ".to")
-    o = Obj(prog.classes and "pfhedge.instruments.primary.brownian.BrownianStock", "stock", {"dtype": Sym("dtype0"), "device": Sym("device0")})
-    o.attrs["__buf_spot"] = W.tensor("stock.spot", "buffer")
-    allres = interp.explore(to, [], dict(dtype=Sym("dtype1")), self_obj=o)
-    res = [r for r in allres if not r["raises"]]
-    # the rejection may be an `if ...: raise` guard in to() itself or a branch (here or in a helper) whose other side raises: a raising path
-    # decided on is_floating_point, reached before any state was changed
-    rejecting = [r for r in allres if r["raises"] and any("is_floating_point" in str(c_) for c_, _, _ in r["cond"])]
-    rejects_clean = bool(rejecting) and all(not any(e["kind"] in ("obj_setattr", "register_buffer") for e in r["events"]) for r in rejecting)
+    if to is None:
+        raise AnalysisError("anchor vanished: BasePrimary.to")
+    fint = Interp(prog, max_depth=20)
+    for k_ in list(fint.intrinsics):
+        if ".BasePrimary." in k_ or ".BaseDerivative." in k_:
+            fint.intrinsics.pop(k_)
+    fint.faithful_registry = True
     problems = []
-    if rejecting and not rejects_clean:
-        problems.append("state is changed before the dtype is validated")
-    for r in res:
-        ev = [e for e in r["events"] if e["kind"] in ("guard", "obj_setattr", "register_buffer")]
-        kinds = [e["kind"] for e in ev]
-        if rejects_clean and any("is_floating_point" in str(c_) for c_, _, _ in r["cond"]):
-            kinds = ["guard"] + kinds
-            ev = [dict(kind="guard", cond="is_floating_point (decided on this path; the other side raises)")] + ev
-        if "guard" not in kinds or not any("is_floating_point" in str(e["cond"]) for e in ev if e["kind"] == "guard"):
-            problems.append("no rejection of non-floating dtypes")
-        elif kinds.index("guard") > min([k for k, x in enumerate(kinds) if x != "guard"] or [99]):
-            problems.append("state is changed before the dtype is validated")
-        sets = {e["attr"]: e["value"] for e in ev if e["kind"] == "obj_setattr"}
-        given = {}
-        for c_, d_, _ in r["cond"]:
-            txt = str(c_)
-            if "is_none" in txt and "_parse_to" in txt:
-                which = "dtype" if txt.rstrip(")").endswith(", 1") else "device"
-                given[which] = d_ if txt.startswith("not(") else not d_
-        for which in ("dtype", "device"):
-            if given.get(which, True) and which not in sets:
-                problems.append(f"declared {which} not updated when a {which} is given")
-            if not given.get(which, True) and which in sets:
-                problems.append(f"declared {which} is overwritten although no {which} was given")
-        if not given.get("dtype", True):
-            kinds = ["guard"] + kinds  # nothing to validate on this path
-            ev = [dict(kind="guard", cond="is_floating_point (vacuous: no dtype given)")] + ev
-        regs = [e for e in ev if e["kind"] == "register_buffer"]
-        if [e["name"] for e in regs] != ["spot"]:
-            problems.append(f"buffers re-registered: {[e['name'] for e in regs]}")
-        elif not (isinstance(regs[0]["tensor"], Op) and regs[0]["tensor"].op == "to" and regs[0]["tensor"].args[0] == W.tensor("stock.spot", "buffer")):
-            problems.append("buffer not cast on re-registration")
-        if kinds and "register_buffer" in kinds and "obj_setattr" in kinds and kinds.index("register_buffer") < max(k for k, x in enumerate(kinds) if x == "obj_setattr"):
-            problems.append("buffers are re-registered before the declaration is updated")
-        if r["value"] is not o:
-            problems.append("does not return self")
-    for which, pos in (("dtype", ", 1"), ("device", ", 0")):
-        kept = False
+    spot0 = W.tensor("stock.spot0")
+    for label, kw_, want_dt, want_dev in (("to(dtype=D1)", dict(dtype=Sym("D1", ("dtype",))), "D1", "device0"), ("to(device=V1)", dict(device=Sym("V1", ("device",))), "dtype0", "V1"),
+                                          ("to()", {}, "dtype0", "device0")):
+        o = Obj("pfhedge.instruments.primary.brownian.BrownianStock", "stock", {"dtype": Sym("dtype0", ("dtype",)), "device": Sym("device0", ("device",)), "_buffers": {"spot": spot0}})
+        try:
+            allres = fint.explore(to, [], dict(kw_), self_obj=o, max_paths=40)
+        except Unsupported as ex:
+            raise AnalysisError(f"BasePrimary.{label}: {ex}")
+        res = [r for r in allres if not r["raises"]]
+        if not res:
+            problems.append(f"{label}: every path raises")
         for r in res:
-            for c_, d_, _ in r["cond"]:
-                txt = str(c_)
-                if "is_none" in txt and "_parse_to" in txt and txt.rstrip(")").endswith(pos) and (d_ if not txt.startswith("not(") else not d_):
-                    kept = kept or not any(e["kind"] == "obj_setattr" and e["attr"] == which for e in r["events"])
-        if not kept:
-            problems.append(f"no path keeps the declared {which} when to() is called without a {which}")
-    ok = not problems and bool(res)
-    run.oblige("C17.R2", "BasePrimary.to", ok, "; ".join(problems) or "validate -> update declaration -> re-register cast buffers -> return self")
+            st = {}
+            for e in r["events"]:
+                if e["kind"] == "obj_setattr" and e.get("obj") is o:
+                    st[e["attr"]] = e["value"]
+            dt_, dev_ = st.get("dtype", Sym("dtype0")), st.get("device", Sym("device0"))
+            if _tag(dt_) != want_dt:
+                problems.append(f"{label}: declared dtype is {_tag(dt_)} afterwards, expected {want_dt}")
+            if _tag(dev_) != want_dev:
+                problems.append(f"{label}: declared device is {_tag(dev_)} afterwards, expected {want_dev}")
+            stores_ = [e for e in r["events"] if e["kind"] == "dict_store" and e.get("key") == "spot"]
+            buf = stores_[-1]["value"] if stores_ else spot0
+            e_dev, e_dt = _effective(buf)
+            base_ = buf
+            while isinstance(base_, Op) and base_.op == "to":
+                base_ = base_.args[0]
+            if base_ != spot0:
+                problems.append(f"{label}: the buffer is replaced by something that is not the old buffer converted")
+            if "dtype" in kw_ and _tag(e_dt) != want_dt:
+                problems.append(f"{label}: the buffer ends up in dtype {_tag(e_dt)} while the instrument declares {want_dt}")
+            if "device" in kw_ and _tag(e_dev) != want_dev:
+                problems.append(f"{label}: the buffer ends up on device {_tag(e_dev)} while the instrument declares {want_dev}")
+            if r["value"] is not o:
+                problems.append(f"{label}: does not return self")
+        if "dtype" in kw_:
+            rejecting = [r for r in allres if r["raises"] and any("is_floating_point" in str(c_) for c_, _, _ in r["cond"])]
+            guarded = any(e["kind"] == "guard" and "is_floating_point" in str(e.get("cond")) for r in res for e in r["events"])
+            if not rejecting and not guarded:
+                problems.append("no rejection of non-floating dtypes")
+            for r in rejecting:
+                if any(e["kind"] in ("obj_setattr", "dict_store") and (e.get("obj") is o or e["kind"] == "dict_store") for e in r["events"]):
+                    problems.append("state is changed before the dtype is validated")
+            for r in res:  # `if ...: raise` guards are recorded as events on the surviving path: nothing may be stored before them
+                kinds = [("guard" if e["kind"] == "guard" and "is_floating_point" in str(e.get("cond")) else e["kind"]) for e in r["events"] if e["kind"] in ("guard", "obj_setattr", "dict_store")]
+                if "guard" in kinds and any(k_ in ("obj_setattr", "dict_store") for k_ in kinds[:kinds.index("guard")]):
+                    problems.append("state is changed before the dtype is validated")
+    problems = sorted(set(problems))
+    ok = not problems
+    run.oblige("C17.R2", "BasePrimary.to", ok, "; ".join(problems) or "validate -> update declaration -> re-register converted buffers -> return self (4 scenarios)")
     if not ok:
-        run.fail(Finding("C17.R2", to.qualname, "; ".join(problems), "to() does not re-establish 'every buffer has the declared dtype/device'", file=str(prog.modules[to.module].path), line=to.node.lineno))
+        run.fail(Finding("C17.R2", to.qualname, "; ".join(problems)[:400], "to() does not re-establish 'every buffer has the declared dtype/device'", file=str(prog.modules[to.module].path), line=to.node.lineno))
     pt = prog.functions.get(BASE + "._parse_to")
     if pt is None:
         raise AnalysisError("anchor vanished: BasePrimary._parse_to")
